@@ -149,8 +149,47 @@ def rle (l : List Nat) : String :=
 (`C11_conn_sched_indep`); the Go scheduler picks its own. -/
 def drvSched : Sched := fun i => (i * 7 + 1) % 4
 
+/-- Fault sessions (`c11 fault <N>.<k>.<sticky> - <ops>`): the transport fails
+its `N`-th Write after `k` bytes; `sticky = 1`: every later Write fails too.
+The harness transport holds Write `N` until the sender has queued the next
+chunk (`Stats.Flushed >= N+2`, checked between operations) or has run out of
+operations; then it lets the Write fail and waits until the error is visible
+to the sender.  All other Writes run as soon as they are queued.  The caller
+stops at the first error and calls Close.  The driver replays exactly that
+schedule on `FSender`. -/
+def handleFault (spec ops : String) : String :=
+  match (spec.splitOn ".").mapM String.toNat?, parseOps ops with
+  | some [n, k, sticky], some ops =>
+    -- (`sticky` only matters to the transport: since f07ee15 no Write follows a failed one)
+    let fault : Fault := fun i =>
+      if i == n then some k else if sticky == 1 && i > n then some 0 else none
+    let lazy : Sched := fun _ => 0
+    let rec go (ops : List Op) (s : FSender) (released : Bool) (nok : Nat) : FSender × Bool × Nat × Bool :=
+      match ops with
+      | [] => (s, released, nok, true)
+      | o :: os =>
+        match s.step fault lazy o with
+        | (s, false) => (s, released, nok, false)
+        | (s, true) =>
+          if !released && s.flushed ≥ n + 2 then
+            go os (s.writerSteps fault s.queue.length) true (nok + 1)
+          else
+            let steps := if released then s.queue.length else min s.queue.length (n - s.handed.length)
+            go os (s.writerSteps fault steps) released (nok + 1)
+    let (s, _, nok, ok) := go ops FSender.init false 0
+    let s := s.writerSteps fault s.queue.length
+    let pre := s!"{s.sent},{s.flushed},{s.cur.size}"
+    let (s, cok) := s.close fault lazy
+    let s := s.writerSteps fault s.queue.length
+    let stream := s.wire.foldl (· ++ ·) ByteArray.empty
+    let b := fun (x : Bool) => if x then "ok" else "err"
+    s!"w={rle (s.wire.map (·.size))};wh={hex64 (fnv1a stream)};nok={nok};ops={b ok};close={b cok};" ++
+      s!"pre={pre};sent={s.sent};fl={s.flushed};writes={s.wire.length};tc={if cok then 1 else 0}"
+  | _, _ => "bad-op"
+
 def handle (args : List String) : String :=
   match args with
+  | ["fault", spec, _, ops] => handleFault spec ops
   | [mode, frag, kinds, ops] =>
     match parseFrag frag, parseKinds kinds, parseOps ops with
     | some frag, some kinds, some ops =>
